@@ -348,10 +348,73 @@ pub fn gen_rand(ch: &mut Choices, o: &GenOpts) -> AG {
             ag.rules[r].prods.push(np);
         }
     }
+    if ch.chance(1, 4) {
+        add_nullable_chain(ch, &mut ag);
+    }
     if o.precedence && ch.chance(1, 4) {
         add_random_precs(ch, &mut ag);
     }
     ag
+}
+
+/// A chain of rules that is nullable only through other rules (`N0: N1 | t; N1: N2; N2: ;`),
+/// declared top-down or bottom-up, referenced from the middle of an existing production.
+/// Nullability then has to travel up the chain, one level per pass of a fixed-point loop.
+fn add_nullable_chain(ch: &mut Choices, ag: &mut AG) {
+    let depth = ch.range(2, 4);
+    let base = ag.rules.len();
+    let top_down = ch.chance(2, 3);
+    let nt = ag.tokens.len();
+    // index of level k (0 = top) in declaration order
+    let idx = |k: usize| if top_down { base + k } else { base + depth - 1 - k };
+    let mut rules: Vec<AgRule> = (0..depth)
+        .map(|k| AgRule {
+            name: format!("N{}", if top_down { k } else { depth - 1 - k }),
+            prods: vec![],
+            actiontype: None,
+        })
+        .collect();
+    for k in 0..depth {
+        let slot = if top_down { k } else { depth - 1 - k };
+        if k + 1 < depth {
+            rules[slot].prods.push(AgProd {
+                syms: vec![Sym::R(idx(k + 1))],
+                prec: None,
+                action: None,
+            });
+            if k == 0 && ch.chance(1, 2) {
+                rules[slot].prods.push(AgProd {
+                    syms: vec![Sym::T(ch.pick(nt))],
+                    prec: None,
+                    action: None,
+                });
+            }
+        } else {
+            rules[slot].prods.push(AgProd {
+                syms: vec![],
+                prec: None,
+                action: None,
+            });
+        }
+        rules[slot].name = format!("N{k}");
+    }
+    ag.rules.extend(rules);
+    // reference the top of the chain, preferably right after a rule symbol
+    let r = ch.pick(base);
+    let p = ch.pick(ag.rules[r].prods.len());
+    let syms = &ag.rules[r].prods[p].syms;
+    let after_rule: Vec<usize> = (0..syms.len()).filter(|i| matches!(syms[*i], Sym::R(_))).map(|i| i + 1).collect();
+    let pos = if !after_rule.is_empty() && ch.chance(2, 3) {
+        *ch.choose(&after_rule)
+    } else {
+        ch.pick(syms.len() + 1)
+    };
+    let mut np = ag.rules[r].prods[p].clone();
+    np.syms.insert(pos, Sym::R(idx(0)));
+    if ch.chance(1, 2) {
+        np.syms.insert(pos + 1, Sym::T(ch.pick(nt)));
+    }
+    ag.rules[r].prods.push(np);
 }
 
 fn add_random_precs(ch: &mut Choices, ag: &mut AG) {
